@@ -13,6 +13,15 @@ def gen_list(r, trees, unrooted_ids, allow_rooted=True):
     items = []
     tids = list(trees)
     r.shuffle(tids)
+    if allow_rooted and r.random() < 0.3:
+        # a list of rooted nodes ONLY (no Root, nothing unrooted, no array, no dict)
+        for tid in r.sample(list(trees), k=min(len(trees), r.choice([1, 2]))):
+            kids = [k["name"] for k in trees[tid]["kids"]]
+            r.shuffle(kids)
+            for kn in kids[:r.choice([1, 2])]:
+                items.append({"node": [tid, [kn]]})
+        if items:
+            return {"kind": r.choice(["list", "tuple"]), "items": items}
     for tid in tids[:r.randrange(0, len(tids) + 1)]:
         items.append({"root": tid})
     if allow_rooted and r.random() < 0.5:
@@ -57,11 +66,22 @@ def cases(tier, seed):
                                  "md": [gen.gen_metadata(r, set())] if r.random() < 0.4 else [], "kids": []}
         steps = []
         first = True
-        for _ in range(r.choice([1, 2, 3, 4])):
+        directed = None
+        if i % 8 == 5:
+            # directed: a file exists, then a list save in OVERWRITE mode — every kind of list, rooted-only ones included
+            directed = r.choice(["o", "overwrite"])
+            steps.append({"do": "save", "path": "A", "src": r.choice(list(trees)), "target": [], "mode": "w", "tree": True, "emdpath": None})
+            steps.append({"do": "walk", "path": "A"})
+            steps.append({"do": "save", "path": "A", "mode": directed, "tree": True, "emdpath": None, "input": gen_list(r, trees, list(unrooted))})
+            steps.append({"do": "walk", "path": "A"})
+            first = False
+        for _ in range(r.choice([1, 2, 3, 4]) if directed is None else r.choice([0, 1])):
             kind = r.random()
             mode = "w" if first else r.choice(["a", "ao", "append", "appendover"])
             if first and r.random() < 0.3:
                 mode = r.choice(["a", "o", "ao"])
+            if not first and r.random() < 0.12:
+                mode = r.choice(["o", "overwrite"])        # a later save may also REPLACE the file: nothing of the old one stays
             if kind < 0.45:
                 st = {"do": "save", "path": "A", "mode": mode, "tree": True, "emdpath": None,
                       "input": gen_list(r, trees, list(unrooted))}
@@ -80,7 +100,7 @@ def cases(tier, seed):
             steps.append({"do": "read", "path": "A", "emdpath": f"R{k}", "tree": None})
         steps.append({"do": "read", "path": "A", "emdpath": "root_savedlist", "tree": None})
         steps.append({"do": "info", "path": "A"})
-        yield {"trees": trees, "unrooted": unrooted, "steps": steps}
+        yield {"trees": trees, "unrooted": unrooted, "steps": steps, "pathlib": r.random() < 0.3}
 
 
 def run_both(drv, case):
@@ -122,7 +142,17 @@ def oracle(case, obs):
             untagged = [k for k, v in o["h5"]["k"] if not ("g" in v and v["g"].get("emd_group_type") == "root")]
             if untagged:
                 return {"step": idx, "top_level_non_root": untagged}
-            if prev is not None and last is not None:
+            if prev is not None and last is not None and cls_mode(last[0]["mode"]) == "o" and last[2] == {"ok": True}:
+                # overwrite mode REPLACES the file: the old trees and the old header are gone by definition (C11); what the
+                # new file must hold is exactly what this one save wrote
+                st0, ms0, o0 = last
+                touched = targeted_roots(st0, ms0)
+                stale = sorted(set(cur) - touched)
+                if stale:
+                    return {"step": idx, "overwrite_mode_kept_old_trees": stale}
+                if hdr.get("UUID") == prev[1].get("UUID"):
+                    return {"step": idx, "overwrite_mode_kept_the_old_header": True}
+            elif prev is not None and last is not None:
                 st0, ms0, o0 = last
                 touched = targeted_roots(st0, ms0)
                 for name, tree in prev[0].items():
